@@ -783,14 +783,24 @@ class DateParserPlugin(plugins.Plugin):
                 return self.errorize(text, node)
             else:
                 n = DateTimeNode(node.fieldname, dt, node.boost)
-        except DateParseError:
+        except (DateParseError, ValueError, OverflowError):
+            # ValueError/OverflowError: the text parsed as a date that is
+            # outside the range of datetime (e.g. the year 0000)
             e = sys.exc_info()[1]
-            n = self.errorize(e, node)
+            # (an ErrorNode takes its character range from the wrapped node)
+            return self.errorize(e, node)
         n.startchar = node.startchar
         n.endchar = node.endchar
         return n
 
     def range_to_dt(self, node):
+        try:
+            return self._range_to_dt(node)
+        except (DateParseError, ValueError, OverflowError):
+            # A bound outside the range of datetime (e.g. the year 0000)
+            return self.errorize(sys.exc_info()[1], node)
+
+    def _range_to_dt(self, node):
         start = end = None
         dp = self.dateparser.get_parser()
 
@@ -917,7 +927,12 @@ class DateTagger(Tagger):
                     dateparser = plugin.dateparser
                     basedate = plugin.basedate
 
-                    d, newpos = dateparser.parse(dtext, basedate)
+                    try:
+                        d, newpos = dateparser.parse(dtext, basedate)
+                    except (ValueError, OverflowError):
+                        # Not a representable date (e.g. the year 0000): let
+                        # the other taggers have the text
+                        d = None
                     if d:
                         node = DateTimeNode(fieldname, d)
                         node.startchar = match.start()
